@@ -242,6 +242,8 @@ def run(ctx):
         a, b = robs[k], robs[k + 1]
         if any(x.get("timeout") or x.get("died") or x.get("harness_error") for x in (a, b)):
             continue        # non-termination of *programs* is C10's matter
+        unordered = re.search(r"\b(set|mapping|Set|Mapping|json|update_counter|to_set)\b", runs[k]["source"]) is not None
+
         def view(o):
             f = batch.program_failure(o)
             if f is not None:
@@ -249,8 +251,8 @@ def run(ctx):
             # sets / mappings are compared as multisets (iteration order is unspecified)
             def norm(d):
                 # the text of an error value may quote the debug rendering of a set / mapping, whose order is unspecified
-                if d and d[0] == "err" and "inner: {" in d[1]:
-                    return "('err', <text quoting a hash collection>)"
+                if d and d[0] == "err" and ("inner: {" in d[1] or unordered):
+                    return "('err', <text that may quote a hash collection>)"
                 return repr(core.strip_dump(d))
             vals = {n: norm(x.get("dump")) for n, x in (o.get("bindings") or {}).items()}
             calls = [(c_.get("outcome"), norm(c_.get("dump")) if c_.get("dump") else c_.get("violation")) for c_ in (o.get("calls") or [])]
